@@ -468,10 +468,9 @@ func scnRenewRecipes(ctx *check.JobCtx) {
 			}
 		}
 		w.EndBlock()
-		if r.Intn(3) > 0 {
-			renew(3600 + uint64(r.Intn(3000)))
-			w.EndBlock()
-		}
+		// (always renewed: the renewal order copies the shard list, which is what makes a pruned hand-over dangle)
+		renew(3600 + uint64(r.Intn(3000)))
+		w.EndBlock()
 		if od, ok := w.Cur.Orders[oid]; ok {
 			w.AdvanceTo(int64(od.CreatedAt) + 503)
 		}
